@@ -129,6 +129,38 @@ fn expect_prefix(what: &str, got: &[(String, Value)], want: &[(String, Value)], 
 
 /// Applies `op` to the real object and to the model and compares the results
 /// of the operation. The caller then runs `check_state`.
+/// Collects into an `Object` from iterators whose `size_hint` is exact (0), has
+/// a lower bound of 0 (1: `filter`, 3: `flat_map`) or says nothing (2: `from_fn`).
+fn collect_with_style<T>(v: Vec<T>, style: usize) -> Object
+where
+	Object: FromIterator<T>,
+{
+	match style {
+		0 => v.into_iter().collect(),
+		1 => v.into_iter().filter(|_| true).collect(),
+		2 => {
+			let mut it = v.into_iter();
+			std::iter::from_fn(move || it.next()).collect()
+		}
+		_ => v.into_iter().flat_map(Some).collect(),
+	}
+}
+
+fn extend_with_style<T>(obj: &mut Object, v: Vec<T>, style: usize)
+where
+	Object: Extend<T>,
+{
+	match style {
+		0 => obj.extend(v),
+		1 => obj.extend(v.into_iter().filter(|_| true)),
+		2 => {
+			let mut it = v.into_iter();
+			obj.extend(std::iter::from_fn(move || it.next()))
+		}
+		_ => obj.extend(v.into_iter().flat_map(Some)),
+	}
+}
+
 pub fn apply(op: &Op, obj: &mut Object, m: &mut Model, fresh: &mut Fresh) -> Result<(), String> {
 	match op {
 		Op::Push(k) | Op::PushEntry(k) => {
@@ -240,16 +272,29 @@ pub fn apply(op: &Op, obj: &mut Object, m: &mut Model, fresh: &mut Fresh) -> Res
 			obj.sort();
 		}
 		Op::RebuildFromVec => {
-			let v: Vec<Entry> = obj.entries().to_vec();
+			// the vector handed over may have spare capacity (built by pushes) or none
+			let src = obj.entries();
+			let style = (fresh.0 as usize + src.len()) % 4;
+			let mut v: Vec<Entry> = match style {
+				0 => src.to_vec(),
+				1 => Vec::with_capacity(src.len() + 5),
+				2 => Vec::with_capacity(src.len() * 2 + 1),
+				_ => Vec::new(),
+			};
+			if style != 0 {
+				for e in src {
+					v.push(e.clone());
+				}
+			}
 			*obj = Object::from_vec(v);
 		}
 		Op::RebuildFromIterEntries => {
 			let v: Vec<Entry> = obj.entries().to_vec();
-			*obj = v.into_iter().collect();
+			*obj = collect_with_style(v, (fresh.0 as usize + m.entries.len()) % 4);
 		}
 		Op::RebuildFromIterPairs => {
 			let v: Vec<(Key, Value)> = obj.iter().map(|e| (e.key.clone(), e.value.clone())).collect();
-			*obj = v.into_iter().collect();
+			*obj = collect_with_style(v, (fresh.0 as usize + m.entries.len()) % 4);
 		}
 		Op::IntoIterRebuild => {
 			let o = std::mem::take(obj);
@@ -258,21 +303,23 @@ pub fn apply(op: &Op, obj: &mut Object, m: &mut Model, fresh: &mut Fresh) -> Res
 		}
 		Op::ExtendEntries(ks) => {
 			let mut add = Vec::new();
+			let style = (fresh.0 as usize + m.entries.len()) % 4;
 			for k in ks {
 				let v = fresh.next();
 				m.entries.push((k.clone(), v.clone()));
 				add.push(Entry::new(key(k), v));
 			}
-			obj.extend(add);
+			extend_with_style(obj, add, style);
 		}
 		Op::ExtendPairs(ks) => {
 			let mut add: Vec<(Key, Value)> = Vec::new();
+			let style = (fresh.0 as usize + m.entries.len()) % 4;
 			for k in ks {
 				let v = fresh.next();
 				m.entries.push((k.clone(), v.clone()));
 				add.push((key(k), v));
 			}
-			obj.extend(add);
+			extend_with_style(obj, add, style);
 		}
 		Op::GetMut(k) => {
 			let pos = m.positions(k);
